@@ -307,6 +307,21 @@ pub fn hostile_text(rng: &mut Rng, lex: &Lexicon, max_words: usize) -> String {
 }
 
 /// Text over an alphabet that cannot spell a number word in any of the seven languages.
+/// a long run of ordinary words (no number, no linking word) ending a sentence: puts what follows it tens of kilobytes
+/// into the text
+pub fn long_filler_prefix(rng: &mut Rng, lex: &Lexicon, words: usize) -> String {
+    let mut s = String::with_capacity(words * 8);
+    for i in 0..words {
+        if i > 0 {
+            s.push(if i % 17 == 0 { '\n' } else { ' ' });
+        }
+        let w: &String = rng.pick(&lex.fillers);
+        s.push_str(w);
+    }
+    s.push_str(". ");
+    s
+}
+
 pub fn no_number_text(rng: &mut Rng, max_len: usize) -> String {
     const ALPHA: [&str; 30] = [
         "日", "本", "語", "数", "字", "😀", "🎉", "—", "…", "!", "?", ",", ".", ";", ":", "(", ")", " ", " ", " ", "\n", "\t", "\u{a0}", "Ж", "щ", "ы", "ξ",
@@ -381,7 +396,13 @@ pub fn annot_en(rng: &mut Rng, lex: &Lexicon, unicode_ws: bool) -> String {
     for i in 0..n {
         let w: String = match rng.below(10) {
             0..=3 => if rng.chance(1, 8) { "O".to_string() } else { "o".to_string() },
-            4..=6 => rng.pick_str(&NUMW).to_string(),
+            // a short fixed list (dense coverage of the common neighbours) or any word of the number vocabulary: plural
+            // multipliers, ordinals, fractions, regional spellings
+            4..=6 => match rng.below(5) {
+                0 | 1 => rng.pick(&lex.number_words).clone(),
+                2 if !lex.ordinal_words.is_empty() => rng.pick(&lex.ordinal_words).clone(),
+                _ => rng.pick_str(&NUMW).to_string(),
+            },
             7 => rng.pick_str(&PUN).to_string(),
             8 => rng.pick(&lex.linking).clone(),
             _ => rng.pick(&lex.fillers).clone(),
